@@ -13,7 +13,7 @@ from ..core.panics import TABLES
 CONFIGS = {'quick': ['A'], 'thorough': ['A', 'B', 'C', 'D']}
 LEVEL = 'other'
 TECHNIQUE = ('who-may-branch query on the direction / strategy enums, def-use wiring of the direction constant, must-pass-through on the '
-             'shared filter pipeline, guard and error inventories of the proposal rules')
+             'shared filter pipeline, guard and error inventories of the proposal rules, CFG ordering of tree blanking after update validation')
 EXPLANATION = ('One rule set: committer (Group::commit_internal) and receiver (MessageProcessor::process_commit) both obtain the '
                'provisional state from GroupState::apply_resolved, differing only in the constant CommitDirection (WIRE). Only '
                'FilterStrategy::{ignore,is_ignore} branch on the strategy and only the From impl and apply_resolved (selection of '
